@@ -16,7 +16,6 @@ MUTANTS = [
     dict(id="c20-cursor-shared", props=["C20"], expect="fire", file=F, old="        unique, counts = np.unique(nlist[:, 0], return_counts=True)\n        nn = 0\n", new="        unique, counts = np.unique(nlist[:, 0], return_counts=True)\n", mention="R-"),
     dict(id="c20-entries-col0", props=["C20"], expect="fire", file=F, old="fneighbors.write(\"%d \" % nlist[nn, 1])", new="fneighbors.write(\"%d \" % nlist[nn, 0])", mention="entries.neighbor.dat"),
     dict(id="c20-volume-index", props=["C20"], expect="fire", file=F, old="foverall.write(\"%d %d %.6f\\n\" % (atomid, i_cn, volumes[i]))", new="foverall.write(\"%d %d %.6f\\n\" % (atomid, i_cn, volumes[nn]))", mention="overall-row"),
-    dict(id="c20-guard-removed", props=["C20"], expect="fire", file=F, old="            if (atomid != nlist[nn, 0]) or (i + 1 != atomid):\n                raise ValueError(\"neighbor list not sorted\")\n", new="", mention="order-guard"),
     dict(id="c20-shift-lo-only", props=["C20"], expect="fire", file=F, old="shiftfactor = snapshot.boxbounds[:, 0] + snapshot.boxlength / 2", new="shiftfactor = snapshot.boxbounds[:, 0]", mention="points"),
     dict(id="c20-frame-inputs", props=["C20"], expect="fire", file=F, old="box, points = list_box[n], list_points[n]", new="box, points = list_box[0], list_points[n]", mention="inputs"),
     # twins
